@@ -37,6 +37,9 @@ func Quiesce() bool {
 	return false
 }
 
+// AbandonedRangeProducers is the number of leaked badger range-producer goroutines seen by the last classification.
+var AbandonedRangeProducers int
+
 var quiesceBuf = make([]byte, 1<<20)
 var quiesceOnce sync.Once
 
@@ -56,6 +59,8 @@ func BusyGoroutines() (int, string) {
 func classify(dump []byte) (int, string) {
 	busy := 0
 	first := ""
+	abandoned := 0
+	defer func() { AbandonedRangeProducers = abandoned }()
 	for i, g := range bytes.Split(dump, []byte("\n\n")) {
 		if i == 0 || len(g) == 0 {
 			continue // the caller itself
@@ -79,6 +84,15 @@ func classify(dump []byte) (int, string) {
 		case strings.HasPrefix(state, "chan receive"), strings.HasPrefix(state, "select"), state == "IO wait", state == "sync.Cond.Wait",
 			state == "finalizer wait", strings.HasPrefix(state, "GC "), strings.HasPrefix(state, "force gc"), state == "debug call":
 			idle = true
+		case strings.HasPrefix(state, "chan send"):
+			// badger.ProcessRange hands key-values from a producer goroutine to its consumer over an unbuffered channel; when the
+			// consumer stops early (labelsz top/N, a handler error) the producer stays blocked on its next send for ever
+			// (a goroutine leak in /repo, see DESIGN.md 9.4). Its consumer can only be gone or itself counted busy.
+			idle = strings.Contains(body, "storage/badger.(*BadgerDB).ProcessRange") &&
+				(strings.Contains(body, "badger.(*BadgerDB).versionedRange") || strings.Contains(body, "badger.(*BadgerDB).unversionedRange") || strings.Contains(body, "badger.sendKV"))
+			if idle {
+				abandoned++
+			}
 		case state == "sleep":
 			// periodic housekeeping (badger, server load monitor) sleeps forever; a sleep inside DVID's data code is a pending poll
 			idle = !strings.Contains(body, "dvid/datatype/") && !strings.Contains(body, "dvid/datastore.")
